@@ -464,6 +464,15 @@ class AFile:
 
     def readinto(self, buf):
         self._chk()
+        from .abuf import AView
+        if isinstance(buf, AView):
+            want = buf.size()
+            left = self._left()
+            n = want if tb(want <= left) else left
+            if tb(n <= 0):
+                return 0
+            buf.write_prefix(self._take(n))
+            return n
         if not isinstance(buf, ABuf):
             raise Unsupported("readinto(%s)" % type(buf).__name__)
         want = buf.size()
